@@ -39,6 +39,7 @@ func chainTo(b *BlockRec) []*BlockRec {
 //
 //go:norace
 func runC17(w *World, p map[string]int) {
+	w.PostCommitGates = true
 	if param(p, "mode", 0) == 1 {
 		runC17Race(w, p)
 		return
